@@ -37,13 +37,15 @@ pub fn sim_eq(a: u32, b: u32) -> bool {
     eq_answer(a, b)
 }
 
-pub trait KeyT: Hash + Eq + Clone + Send + Sync + 'static {
+pub trait KeyT: Hash + Eq + Clone + Send + Sync + 'static + for<'a> From<&'a <Self as KeyT>::View> {
     const NAME: &'static str;
     const HAS_SERIAL: bool;
     const HAS_DROP: bool;
     /// Largest usable id + 1.
     const UNIVERSE: u32;
-    type View: Hash + hashbrown::Equivalent<Self>;
+    type View: Hash + hashbrown::Equivalent<Self> + Send + Sync;
+    /// id of a borrowed view
+    fn view_id(v: &Self::View) -> u32;
     fn make(id: u32) -> Self;
     fn id(&self) -> u32;
     fn serial(&self) -> u32;
@@ -114,7 +116,16 @@ impl Drop for Key8 {
         tick(Class::Drop);
     }
 }
+impl From<&View8> for Key8 {
+    fn from(v: &View8) -> Key8 {
+        tick(Class::Into);
+        <Key8 as KeyT>::make(v.0)
+    }
+}
 impl KeyT for Key8 {
+    fn view_id(v: &View8) -> u32 {
+        v.0
+    }
     const NAME: &'static str = "Key8";
     const HAS_SERIAL: bool = true;
     const HAS_DROP: bool = true;
@@ -291,7 +302,16 @@ impl PartialEq for PodKey {
     }
 }
 impl Eq for PodKey {}
+impl From<&ViewPod> for PodKey {
+    fn from(v: &ViewPod) -> PodKey {
+        tick(Class::Into);
+        <PodKey as KeyT>::make(v.0)
+    }
+}
 impl KeyT for PodKey {
+    fn view_id(v: &ViewPod) -> u32 {
+        v.0
+    }
     const NAME: &'static str = "PodKey";
     const HAS_SERIAL: bool = false;
     const HAS_DROP: bool = false;
@@ -390,7 +410,16 @@ macro_rules! small_key {
                 tick(Class::Drop);
             }
         }
+        impl From<&$view> for $name {
+            fn from(v: &$view) -> $name {
+                tick(Class::Into);
+                <$name as KeyT>::make(v.0)
+            }
+        }
         impl KeyT for $name {
+            fn view_id(v: &$view) -> u32 {
+                v.0
+            }
             const NAME: &'static str = stringify!($name);
             const HAS_SERIAL: bool = false;
             const HAS_DROP: bool = true;
@@ -461,7 +490,16 @@ impl Drop for Key24 {
         tick(Class::Drop);
     }
 }
+impl From<&View24> for Key24 {
+    fn from(v: &View24) -> Key24 {
+        tick(Class::Into);
+        <Key24 as KeyT>::make(v.0)
+    }
+}
 impl KeyT for Key24 {
+    fn view_id(v: &View24) -> u32 {
+        v.0
+    }
     const NAME: &'static str = "Key24";
     const HAS_SERIAL: bool = true;
     const HAS_DROP: bool = true;
